@@ -117,6 +117,21 @@ def hand_base(name):
             datum=C.Datum(parameters=datum) if name in ("zyx", "zyx_gmdatum") else None)
         f.set_construct(gm)
         return f
+    if name == "square2d":
+        # a square grid without dimension coordinates: two size-3 axes spanned by symmetric 2-d auxiliary
+        # coordinates and a 2-d cell measure (dimension reuse must look at the position of the axis)
+        f = C.Field(properties={"standard_name": "sea_surface_temperature", "units": "K"})
+        ay = f.set_construct(C.DomainAxis(3))
+        ax = f.set_construct(C.DomainAxis(3))
+        f.set_data(C.Data(np.arange(9.0).reshape(3, 3)), axes=[ay, ax])
+        i, j = np.meshgrid(np.arange(3.0), np.arange(3.0), indexing="ij")
+        lat = C.AuxiliaryCoordinate(properties={"standard_name": "latitude", "units": "degrees_north"}, data=C.Data(10 * (i + j)))
+        lon = C.AuxiliaryCoordinate(properties={"standard_name": "longitude", "units": "degrees_east"}, data=C.Data(i * j + 1.0))
+        f.set_construct(lat, axes=[ay, ax])
+        f.set_construct(lon, axes=[ay, ax])
+        m = C.CellMeasure(measure="area", properties={"units": "km2"}, data=C.Data(np.arange(9.0).reshape(3, 3) + 1))
+        f.set_construct(m, axes=[ay, ax])
+        return f
     if name in ("line", "square"):
         # `square`: two size-3 axes without dimension coordinates, each with the auxiliary coordinate that
         # `line` has on its only axis
@@ -322,6 +337,32 @@ def apply_op(f, op):
             b = c.get_bounds(None) if hasattr(c, "get_bounds") else None
             if b is not None and b.has_data():
                 _shift_data(b, op[3])
+    elif name == "cnear":  # nearly equal: values differ by a relative 1e-7 (more than rounding, less than "close")
+        k, c = _pick(f, op[1], op[2])
+        if c is not None and c.has_data() and c.data.dtype.kind == "f":
+            d = c.data
+            a = d.array
+            if op[3] == "f4":  # computed in single precision and promoted back
+                new = a.astype("f4").astype(a.dtype) if a.dtype.itemsize > 4 else a * (1 + 1e-6)
+                if np.ma.allequal(new, a):
+                    new = a * (1 + 1e-7) + 1e-9
+            else:
+                new = a * (1 + 1e-7) + 1e-9
+            nd = C.Data(new.astype(a.dtype), units=d.get_units(None), calendar=d.get_calendar(None))
+            if d.get_fill_value(None) is not None:
+                nd.set_fill_value(d.get_fill_value(None))
+            c.set_data(nd, copy=False)
+    elif name == "auxswap":  # an N-d construct re-inserted with its axes (and array) reversed
+        k, c = _pick(f, op[1], op[2])
+        if c is not None and c.has_data() and c.ndim == 2 and (not hasattr(c, "get_bounds") or c.get_bounds(None) is None):
+            axes = f.constructs.data_axes()[k]
+            c2 = c.copy()
+            d = c.data
+            c2.set_data(C.Data(d.array.T.copy(), units=d.get_units(None)), copy=False)
+            used = any(k in r.coordinates() for r in f.coordinate_references(todict=True).values())
+            if not used:
+                f.del_construct(k)
+                f.set_construct(c2, axes=list(reversed(axes)), key=k)
     elif name == "cbounds":  # nearly equal: only the bounds differ (or appear / disappear)
         k, c = _pick(f, op[1], op[2])
         if c is not None and hasattr(c, "get_bounds") and c.has_data() and c.data.dtype.kind in "fiu":
@@ -515,6 +556,8 @@ def random_ops(rng, family):
         ops = []
     elif family == "value":
         ops = [["cvalue", t, i, rng.choice([1, 2, 0.5])]]
+    elif family == "nearly":
+        ops = [["cnear", rng.choice(["dim", "dim", "aux", "msr", "dan"]), i, rng.choice(["f4", "scale"])]]
     elif family == "bounds":
         ops = [["cbounds", rng.choice(["dim", "aux", "dan"]), i, rng.choice(["shift", "del", "add"])]]
     elif family == "units":
@@ -563,7 +606,7 @@ def random_ops(rng, family):
     return ops
 
 
-FAMILIES = ["equal", "dup", "value", "bounds", "units", "prop", "dtype", "ncvar", "ncvar_conflict", "ncdim", "unlimited",
+FAMILIES = ["equal", "dup", "value", "nearly", "nearly", "bounds", "units", "prop", "dtype", "ncvar", "ncvar_conflict", "ncdim", "unlimited",
             "nodimcoord", "delaux", "auxcopy", "gm", "ft", "cm", "shape", "fieldfrom", "domain"]
 
 
@@ -581,6 +624,22 @@ def random_recipe(rng, nmin=2, nmax=4, base=None, modelled_only=False):
         if rng.random() < 0.5:
             sibs.reverse()
         return {"base": {"kind": "hand", "name": "dsg_contig" if which == "contig" else "dsg_ic"}, "sibs": sibs}, ["dsg:" + which]
+    if base is None and rng.random() < 0.04:
+        # square grid without dimension coordinates: equal 2-d constructs, also with their axes the other way round
+        sibs = [[], [["data", 1], ["ncvar", "sst1"]], [["auxswap", "aux", 0], ["auxswap", "aux", 1], ["auxswap", "msr", 0], ["ncvar", "sst2"]]]
+        if rng.random() < 0.5:
+            del sibs[1]
+        rng.shuffle(sibs)
+        return {"base": {"kind": "hand", "name": "square2d"}, "sibs": sibs}, ["square2d"]
+    if base is None and rng.random() < 0.05:
+        # parametric vertical coordinates on different vertical grids of the same size, equal coefficient arrays
+        nm = rng.choice(["zyx", "zyx_nodatum", "zyx_gmdatum"])
+        sibs = [[], [["cvalue", "dim", 0, rng.choice([1, 2, 0.5])], ["ncvar", "ua1"]]]
+        if rng.random() < 0.4:
+            sibs[1].insert(1, ["cvalue", "dan", 0, 1])
+        if rng.random() < 0.5:
+            sibs.reverse()
+        return {"base": {"kind": "hand", "name": nm}, "sibs": sibs}, ["vgrid"]
     if base is None and rng.random() < 0.03:
         # axes without dimension coordinate: an equal / a different auxiliary coordinate on an axis of the same size
         sibs = [[], [["cvalue", "aux", 0, 1], ["ncvar", "q1"]], [["data", 2], ["ncvar", "q2"]]]
